@@ -116,11 +116,7 @@ def evaluate(case) -> Verdict:
     cfg = {"mode": "strict", "extra": True, "twice": False, "flags": flags, "globals": layers["eglobals"]}
     env = envs.make_env(cfg, psrc)
 
-    def go():
-        t = env.from_string(src, globals=layers["tglobals"], matter=layers["matter"])
-        return t.render(**layers["args"])
-
-    o = oc.outcome_of(go)
+    o = oc.render(case, lambda: env.from_string(src, globals=layers["tglobals"], matter=layers["matter"]), **layers["args"])
     interp = S.Interp(
         args=_ranges(layers["args"]), matter=_ranges(layers["matter"]), tglobals=_ranges(layers["tglobals"]),
         eglobals=_ranges(layers["eglobals"]), partials={n: _ranges(b) for n, b in case["partials"].items()},
